@@ -156,17 +156,29 @@ def canon_fields(o):
 
 
 def impl_e2e(a):
+    """`faithful`, or `finding:<id>` when every failure of the input is one a listed finding describes
+    (oracle_docs returns an uncovered failure whenever there is one), else the failure"""
     msg = oracle_docs(a)
-    return ok("faithful") if msg is None else {"err": msg[:160]}
+    if msg is None:
+        return ok("faithful")
+    fid = (covered_subst if "subs" in a else covered_docs)(a, msg)
+    return ok("finding:" + fid) if fid else {"err": msg[:160]}
 
 
 def spec_e2e(a):
-    """the property itself, for content models outside the listed findings: every valid document
-    is accepted by the strict parser and comes back with the same content"""
-    p = a["particle"]
-    if len(set(G.particle_names(p))) != len(G.particle_names(p)):
-        return {"unspecified": "an element name at several sites (finding C02-duplicate-name-sites)"}
+    """the property itself: every valid document is accepted by the strict parser and comes back with the same
+    content.  (No region is left unspecified: on a content model with an element name at several sites the
+    implementation may answer `finding:C02-duplicate-name-sites`, which `compare_e2e` admits only there and only
+    when the coverage predicate recognised the failure itself.)"""
     return ok("faithful")
+
+
+def compare_e2e(m, i, a):
+    if m == i:
+        return True
+    p = a["particle"]
+    dup = len(set(G.particle_names(p))) != len(G.particle_names(p))
+    return dup and i == ok("finding:C02-duplicate-name-sites")
 
 
 def gen_choice_clashes(rng, tier):
@@ -784,7 +796,7 @@ CORRS = [
     Corr("gen.compound", gen_compound, impl_compound, classify=classify_compound,
          nontrivial=lambda a, o: any("compound" in x for x in (o.get("ok") or [])),
          describe="CreateCompoundFields.process (compound fields enabled: group_fields, update_counters, sum_counters, sequence) on the attrs the real FLATTEN handlers leave vs model"),
-    Corr("c02.e2e", gen_e2e, impl_e2e, spec=spec_e2e,
+    Corr("c02.e2e", gen_e2e, impl_e2e, spec=spec_e2e, compare=compare_e2e,
          describe="spec-level: schema (typed elements, unions) -> real pipeline under default / compound-field / output-only options -> strict parse of valid documents -> re-serialise; expected: faithful"),
 ]
 
@@ -874,6 +886,28 @@ def repeating_heads(a):
     return out
 
 
+# "nothing retyped": the python type a value of each XSD type of `G.ELEM_TYPES` is held as (own table, from the
+# XSD built-in datatypes; a union holds a value of one of its member types)
+PY_TYPES = {
+    "string": {"str"}, "token": {"str"}, "int": {"int"}, "long": {"int"}, "boolean": {"bool"}, "date": {"XmlDate"},
+    "decimal": {"Decimal"}, "u_int_string": {"int", "str"}, "u_date_int": {"XmlDate", "int"},
+}
+
+
+def retyped(obj, types):
+    """an element value of the parsed object that is not held as a value of its schema type"""
+    for f in dataclasses.fields(obj):
+        md = f.metadata
+        key = (types or {}).get(md.get("name", f.name))
+        if md.get("type") != "Element" or key not in PY_TYPES:
+            continue
+        v = getattr(obj, f.name)
+        for x in (v if type(v) in (list, tuple) else [v]):  # frozen classes hold tuples; XmlDate is a NamedTuple
+            if x is not None and type(x).__name__ not in PY_TYPES[key]:
+                return f"element {md.get('name', f.name)} of type {G.ELEM_TYPES[key][0]} is held as {type(x).__name__} ({x!r})"
+    return None
+
+
 def _oracle_docs_failures(a):
     """yields every failure, pass by pass (a failure ends its pass)"""
     from lxml import etree
@@ -926,6 +960,11 @@ def _one_pass(g, opts, ordered, a, p, words, types, schema, state):
                 except Exception as e:  # noqa: BLE001
                     yield f"schema-valid document {doc} rejected ({opts}): {type(e).__name__}: {e}"
                     continue
+                if types and not opts.get("compound_fields"):
+                    bad = retyped(obj, types)
+                    if bad:
+                        yield f"document {doc} parsed with a retyped value ({opts}): {bad}"
+                        continue
                 out = XmlSerializer(context=ctx).render(obj)
                 back = etree.fromstring(out.encode())
                 got = [(etree.QName(c).localname, c.text) for c in back]
@@ -1047,7 +1086,7 @@ def gen_groups(rng, tier):
         yield {"group": q, "refs": refs, "words": words, "types": types, "config": cfg}
 
 
-def oracle_gschema(a):
+def _oracle_gschema_failures(a):
     """schemas with named groups (nested references, several references with their own occurrence ranges)
     and xs:all: documents valid for the type of r<i> parse into R<i> under strict settings and come back
     with the same children"""
@@ -1062,11 +1101,12 @@ def oracle_gschema(a):
     try:
         schema = etree.XMLSchema(etree.fromstring(xsd.encode()))
     except etree.XMLSchemaParseError:
-        return None
+        return
     g = CG.run_pipeline({"s.xsd": xsd}, **a.get("config", {}))
     try:
         if g.error is not None:
-            return f"generation failed: {type(g.error).__name__}: {g.error}"
+            yield f"generation failed: {type(g.error).__name__}: {g.error}"
+            return
         ctx = XmlContext()
         parser = XmlParser(context=ctx, config=ParserConfig(fail_on_unknown_properties=True, fail_on_unknown_attributes=True, fail_on_converter_warnings=True))
         for i, words in enumerate(a["words"]):
@@ -1078,14 +1118,26 @@ def oracle_gschema(a):
                 try:
                     obj = parser.from_string(doc, R)
                 except Exception as e:  # noqa: BLE001
-                    return f"schema-valid document {doc} rejected (type #{i}): {type(e).__name__}: {e}"
+                    yield f"schema-valid document {doc} rejected (type #{i}): {type(e).__name__}: {e}"
+                    continue
                 out = XmlSerializer(context=ctx).render(obj)
                 got = [(etree.QName(c).localname, c.text) for c in etree.fromstring(out.encode())]
                 if sorted(got) != sorted(zip(w, G.word_values(w, types))):
-                    return f"document {doc} re-serialised with other content (type #{i}): {out}"
+                    yield f"document {doc} re-serialised with other content (type #{i}): {out}"
     finally:
         g.close()
-    return None
+
+
+def oracle_gschema(a):
+    """the first failure no listed finding covers, else the first failure, else None (a covered failure of one
+    document must not hide an uncovered failure of another)"""
+    first = None
+    for msg in _oracle_gschema_failures(a):
+        if first is None:
+            first = msg
+        if not covered_gschema(a, msg):
+            return msg
+    return first
 
 
 def gen_gschema_docs(rng, tier):
@@ -1105,15 +1157,41 @@ def gen_gschema_docs(rng, tier):
 
 
 def covered_gschema(a, msg):
-    """known finding: an element name with several sites in the expanded content model"""
+    """known finding C02-duplicate-name-sites (an element name with several sites in the expanded content model), and only
+    the failures it describes: `Unknown property …:n` for such a name n that the rejected document carries more than once,
+    or, with compound fields, a re-serialisation that lacks only elements with such names.  Anything else is reported."""
     import re
 
-    m = re.search(r"type #(\d+)", msg)
+    from lxml import etree
+
+    m = re.search(r"\(type #(\d+)\)", msg)
     if not m:
         return None
     names = G.gparticle_names(a["schema"], a["schema"]["types"][int(m.group(1))])
-    for n in set(names):
-        if names.count(n) > 1 and (f"}}{n}" in msg or f":{n}" in msg):
+    dups = {n for n in names if names.count(n) > 1}
+    if not dups:
+        return None
+    DOC = r"(<t:r\d+\b.*?</t:r\d+>|<t:r\d+\b[^>]*/>)"
+    m = re.search(r"schema-valid document " + DOC + r" rejected \(type #\d+\): ParserError: Unknown property (?:\{urn:t\})?r\d+:(?:\{urn:t\})?([^\s:{}]+)\s*$", msg, re.S)
+    if m:
+        n = m.group(2)
+        try:
+            count = sum(1 for ch in etree.fromstring(m.group(1).encode()) if etree.QName(ch).localname == n)
+        except etree.XMLSyntaxError:
+            return None
+        return "C02-duplicate-name-sites" if n in dups and count > 1 else None
+    m = re.search(r"document " + DOC + r" re-serialised with other content \(type #\d+\): (<\?xml.*)$", msg, re.S)
+    if m and a.get("config", {}).get("compound_fields"):
+        try:
+            root = etree.fromstring(m.group(1).encode())
+            back = etree.fromstring(m.group(2).strip().encode())
+        except (etree.XMLSyntaxError, ValueError):
+            return None
+
+        def others(e):
+            return sorted((etree.QName(ch).localname, ch.text) for ch in e if etree.QName(ch).localname not in dups)
+
+        if others(root) == others(back):
             return "C02-duplicate-name-sites"
     return None
 
@@ -1183,7 +1261,10 @@ def _oracle_attr_docs_failures(a):
             got_kids = [(etree.QName(c).localname, None if c.get("{%s}nil" % XSI) == "true" else (c.text or "")) for c in back]
             if got_kids != exp_kids:
                 yield f"document {doc} re-serialised with other children: {out}"
-                continue
+                # the xsi:nil findings: when the difference is exactly the one they describe, the remaining clauses
+                # (attributes, validity of the output) are still judged
+                if got_kids != nil_predicted(decls, doc_spec["elems"])[0]:
+                    continue
 
             def norm(attrib):
                 m = {k: v for k, v in attrib.items()}
@@ -1219,19 +1300,68 @@ def oracle_attr_docs(a):
             return msg
     return first
 
+_LISTED = []
+
+
+def listed_findings():
+    """ids under "findings" in known_findings.json: a clause that describes a listed defect applies only while the defect
+    is listed (a repaired one moves to "fixed" and its clause lapses with it)"""
+    if not _LISTED:
+        import framework
+
+        _LISTED.append({f["id"] for f in framework.load_findings().get("findings", [])})
+    return _LISTED[0]
+
+
+def nil_predicted(decls, elems):
+    """the children the UNCHANGED code writes back under the two listed xsi:nil findings (the object holds None for
+    'absent', 'nil' and 'empty' alike): an absent optional single nillable element appears as nil, an empty nillable
+    element comes back as nil; everything else as given.  Returns (children, finding id) or (None, None) when neither
+    finding says anything about this document."""
+    given = dict((i, list(vals)) for i, vals in elems)
+    out, fid = [], None
+    listed = listed_findings()
+    for i, d in enumerate(decls):
+        if d["kind"] != "element":
+            continue
+        vals = given.get(i, [])
+        if d.get("nillable"):
+            if "" in vals and "C02-nillable-empty-read-as-nil" in listed:
+                fid = fid or "C02-nillable-empty-read-as-nil"
+                vals = [None if v == "" else v for v in vals]
+            if not vals and d["min"] == 0 and d["max"] == 1 and "C02-nillable-absent-rendered-nil" in listed:
+                fid = "C02-nillable-absent-rendered-nil"
+                vals = [None]
+        out += [(f"d{i}", v) for v in vals]
+    return (out, fid) if fid else (None, None)
+
+
 def covered_attr_docs(a, msg):
-    """known findings about xsi:nil (both None in the object): an absent optional nillable element is written as
-    nil; an empty nillable element is read as nil"""
-    if "other children" not in msg:
+    """known findings about xsi:nil, and only the failure they describe: the re-serialised document (quoted in the
+    message) has exactly the children `nil_predicted` gives for the failing document.  Any other difference in a
+    document with nillable elements is reported."""
+    import re
+
+    from lxml import etree
+
+    m = re.search(r"document (<t:r\b.*?</t:r>|<t:r\b[^>]*/>) re-serialised with other children: (<\?xml.*)$", msg, re.S)
+    if not m:
         return None
-    nillable = [i for i, d in enumerate(a["decls"]) if d["kind"] == "element" and d.get("nillable")]
-    if not nillable:
+    try:
+        root = etree.fromstring(m.group(1).encode())
+        back = etree.fromstring(m.group(2).strip().encode())
+    except (etree.XMLSyntaxError, ValueError):
         return None
-    for ds in a["docs"]:
-        vals = dict(ds["elems"])
-        if any(a["decls"][i]["min"] == 0 and a["decls"][i]["max"] == 1 and not vals.get(i) for i in nillable):
-            return "C02-nillable-absent-rendered-nil"
-        # (an empty nillable element without xsi:nil is read as "" since repair c01g-06: no excuse any more)
+
+    def kids(e):
+        return [(etree.QName(c).localname, None if c.get("{%s}nil" % XSI) == "true" else (c.text or "")) for c in e]
+
+    elems = {}
+    for name, v in kids(root):
+        elems.setdefault(int(name[1:]), []).append(v)
+    pred, fid = nil_predicted(a["decls"], sorted(elems.items()))
+    if pred is not None and kids(back) == pred:
+        return fid
     return None
 
 
@@ -1394,9 +1524,40 @@ def gen_subst_docs(rng, tier):
 def covered_subst(a, msg):
     """known finding: without compound fields the head of a substitution group and its substitutes are separate
     list fields; when the reference can occur more than once their interleaving (with each other and with the
-    other members of a repeating sequence) is lost (element names are distinct here, so nothing else is excused;
-    with compound fields the order is kept since fix c02c-01)"""
-    if ("another element order" in msg or "not schema-valid" in msg) and "compound_fields" not in msg and repeating_heads(a):
+    other members of a repeating sequence) is lost (element names are distinct here; with compound fields the order
+    is kept since fix c02c-01).  Only that failure is excused: the document comes back with the same children, every
+    element name outside the group keeps the order of its own values, and the children outside the group that occur at
+    most once per document are still in their order (`displaced_only_around`: the separate list fields of the group
+    are written in turns with their repeatable neighbours, nothing else moves)."""
+    import re
+
+    from lxml import etree
+
+    heads = repeating_heads(a)
+    if not heads or "compound_fields" in msg:
+        return None
+    m = re.search(r"document (<t:r\b.*?</t:r>|<t:r\b[^>]*/>) re-serialised (?:in another element order \(\{\}\): |as )"
+                  r"(<\?xml.*?</ns0:r>|<\?xml.*?<ns0:r\b[^>]*/>)(, which is not schema-valid \(\{\}\))?\s*$", msg, re.S)
+    if not m:
+        return None
+    try:
+        root = etree.fromstring(m.group(1).encode())
+        back = etree.fromstring(m.group(2).encode())
+    except (etree.XMLSyntaxError, ValueError):
+        return None
+    group = set(heads)
+    grew = True
+    while grew:
+        grew = False
+        for mem, h in a.get("subs", ()):
+            if h in group and mem not in group:
+                group.add(mem)
+                grew = True
+
+    def kids(e):
+        return [(etree.QName(c).localname, c.text) for c in e]
+
+    if sorted(kids(root)) == sorted(kids(back)) and displaced_only_around(a["particle"], group, kids(root), kids(back)):
         return "C02-substitution-order-without-compound"
     return None
 
@@ -1489,7 +1650,18 @@ def ns_heuristic_wrong(a):
 
 
 def covered_ns(a, msg):
-    if ns_heuristic_wrong(a) and ("Unknown property" in msg or "Unknown attribute" in msg):
+    """known finding C02-unprefixed-ref-unbound-target-namespace, and only the failure it describes: the strict parser
+    does not know the child (attribute) that an UNPREFIXED reference declares, because the field was bound to the other
+    namespace.  A rejection that names anything else, or any other failure in such a context, is reported."""
+    import re
+
+    if not ns_heuristic_wrong(a):
+        return None
+    m = re.search(r" rejected: ParserError: Unknown (property|attribute) (?:\{[^}]*\})?r:(?:\{[^}]*\})?([^\s:{}]+)\s*$", msg)
+    if not m:
+        return None
+    want_attr = m.group(1) == "attribute"
+    if any(d["kind"] == "ref" and d["prefix"] is None and bool(d["attr"]) == want_attr and d["name"] == m.group(2) for d in a["decls"]):
         return "C02-unprefixed-ref-unbound-target-namespace"
     return None
 
@@ -1550,7 +1722,7 @@ def gen_misc(rng, tier):
     n = 0
     while n < n_cases(tier, 60, 100000):
         n += 1
-        kind = rng.choice(["any", "any", "anyattr", "mixed", "recursive", "nested"])
+        kind = rng.choice(["any", "any", "anyattr", "mixed", "recursive", "nested", "derived"])
         cfg = {"compound_fields": True} if rng.random() < 0.25 else {}
         if kind == "any":
             ns = rng.choice(["##any", "##other", "##local", "##targetNamespace", "urn:o urn:p", "urn:o", "##targetNamespace ##local"])
@@ -1582,6 +1754,31 @@ def gen_misc(rng, tier):
                     parts += ["<t:b>3</t:b>", rng.choice(["w", ""])]
                 docs.append(f'<t:r {NSD}>' + "".join(parts) + "</t:r>")
             yield {"xsd": _schema(body), "docs": docs, "config": cfg, "kind": "mixed"}
+        elif kind == "derived":
+            # extension of a named type that carries XML attributes (directly and through attribute groups), with a wildcard at
+            # the end of the base content (the base is then flattened into the derived class) or without one (python
+            # inheritance); a simpleContent chain with attributes on both levels
+            wild = rng.random() < 0.6
+            grouped = rng.random() < 0.5
+            any_ = '<xs:any namespace="##other" processContents="lax" minOccurs="0" maxOccurs="unbounded"/>' if wild else ""
+            base_attrs = ('<xs:attributeGroup ref="ag"/>' if grouped else '<xs:attribute name="k" type="xs:string"/><xs:attribute name="n" type="xs:int" use="required"/>')
+            extra = ((' <xs:attributeGroup name="ag"><xs:attribute name="k" type="xs:string"/><xs:attribute name="n" type="xs:int" use="required"/></xs:attributeGroup>\n' if grouped else "")
+                     + f' <xs:complexType name="A"><xs:sequence><xs:element name="a" type="xs:string"/>{any_}</xs:sequence>{base_attrs}</xs:complexType>\n'
+                     ' <xs:complexType name="B"><xs:complexContent><xs:extension base="A"><xs:sequence><xs:element name="b" type="xs:string" minOccurs="0"/>'
+                     '<xs:element name="s" type="S2" minOccurs="0" maxOccurs="unbounded"/></xs:sequence><xs:attribute name="m" type="xs:string"/></xs:extension></xs:complexContent></xs:complexType>\n'
+                     ' <xs:complexType name="S"><xs:simpleContent><xs:extension base="xs:int"><xs:attribute name="u" type="xs:string"/></xs:extension></xs:simpleContent></xs:complexType>\n'
+                     ' <xs:complexType name="S2"><xs:simpleContent><xs:extension base="S"><xs:attribute name="w" type="xs:boolean"/></xs:extension></xs:simpleContent></xs:complexType>\n')
+            xsd = _schema("", extra).replace('<xs:element name="r"></xs:element>', '<xs:element name="r" type="B"/>')
+            docs = []
+            for _ in range(5):
+                at = ' n="%d"' % rng.randint(-3, 9) + rng.choice(["", ' k="kv"']) + rng.choice(["", ' m="mv"'])
+                kids = "<t:a>v</t:a>" + "".join(rng.choice(["<o:x>1</o:x>", '<p:w q="1"><p:v>deep</p:v></p:w>']) for _ in range(rng.randint(0, 2) if wild else 0))
+                if rng.random() < 0.6:
+                    kids += "<t:b>w</t:b>"
+                for _ in range(rng.randint(0, 2)):
+                    kids += "<t:s" + rng.choice(["", ' u="m"']) + rng.choice(["", ' w="true"', ' w="false"']) + f">{rng.randint(-5, 5)}</t:s>"
+                docs.append(f"<t:r {NSD}{at}>{kids}</t:r>")
+            yield {"xsd": xsd, "docs": docs, "config": cfg, "kind": f"derived/{'wild' if wild else 'plain'}/{'group' if grouped else 'direct'}"}
         elif kind == "recursive":
             extra = ' <xs:complexType name="T"><xs:sequence><xs:element name="v" type="xs:string"/><xs:element name="c" type="T" minOccurs="0" maxOccurs="unbounded"/></xs:sequence><xs:attribute name="id" type="xs:string"/></xs:complexType>\n'
             xsd = _schema("", extra).replace('<xs:element name="r"></xs:element>', '<xs:element name="r" type="T"/>')
@@ -1613,19 +1810,90 @@ def covered_groups(a, msg):
     return None  # element names are distinct inside the group: the duplicate-site finding cannot apply
 
 
+_MODEL_BOUNDS = {}
+
+
+def model_bounds(p):
+    """name -> (min, max) of the element fields the UNCHANGED code generates for this content model: replay of the
+    Lean model (driver op gen.xsd_occurs, the definition the theorems and counterexamples are about).  None when
+    the driver cannot be asked."""
+    import framework
+
+    key = json.dumps(p, sort_keys=True)
+    if key not in _MODEL_BOUNDS:
+        try:
+            out = framework.Driver().run([{"op": "gen.xsd_occurs", "args": {"particle": p}}])[0]
+            _MODEL_BOUNDS[key] = {s["name"]: (s["min"], s["max"]) for s in out["ok"]}
+        except Exception:  # noqa: BLE001
+            _MODEL_BOUNDS[key] = None
+    return _MODEL_BOUNDS[key]
+
+
 def covered_docs(a, msg):
-    """known finding: an element name with several sites that can occur more than once
-    while the generated field is not a list"""
+    """known finding C02-duplicate-name-sites: one field per element name.  A failure belongs to it only if it is
+    (a) `Unknown property …r:…n` for a name n with several sites that the rejected document carries more often than the
+        single merged field admits (its bound is replayed on the model), or
+    (b) a re-serialisation in which only the elements with such names lose their place (or, with compound fields, are
+        dropped): the other children come back unchanged and in their order.
+    Any other failure on such a schema (another name, another exception, other content without compound fields, a
+    displaced element whose name has one site) is reported."""
+    import re
+
+    from lxml import etree
+
     p = a["particle"]
-    for n in set(G.particle_names(p)):
-        if multi_site(p, n):
-            tm = true_max(p, n)
-            if (tm is None or tm > 1) and f"}}{n}" in msg or f":{n}" in msg:
-                return "C02-duplicate-name-sites"
-            if "another element order" in msg or "not schema-valid" in msg:
-                # one field per element name: two sites of one name cannot both keep their place
-                return "C02-duplicate-name-sites"
+    names = G.particle_names(p)
+    dups = {n for n in names if names.count(n) > 1}
+    if not dups:
+        return None
+    DOC = r"(<t:r\b.*?</t:r>|<t:r\b[^>]*/>)"
+    m = re.search(r"schema-valid document " + DOC + r" rejected \([^)]*\): ParserError: Unknown property (?:\{urn:t\})?r:(?:\{urn:t\})?([^\s:{}]+)\s*$", msg, re.S)
+    if m:
+        n = m.group(2)
+        if n not in dups:
+            return None
+        try:
+            count = sum(1 for ch in etree.fromstring(m.group(1).encode()) if etree.QName(ch).localname == n)
+        except etree.XMLSyntaxError:
+            return None
+        bounds = model_bounds(p)
+        limit = bounds[n][1] if bounds and n in bounds else 1
+        return "C02-duplicate-name-sites" if count > limit else None
+    m = re.search(r"document " + DOC + r" re-serialised (?:in another element order \([^)]*\): |with other content \({'compound_fields': True}\): |as )"
+                  r"(<\?xml.*?</ns0:r>|<\?xml.*?<ns0:r\b[^>]*/>)(, which is not schema-valid \([^)]*\))?\s*$", msg, re.S)
+    if m:
+        try:
+            root = etree.fromstring(m.group(1).encode())
+            back = etree.fromstring(m.group(2).encode())
+        except (etree.XMLSyntaxError, ValueError):
+            return None
+
+        if displaced_only_around(p, dups, [(etree.QName(ch).localname, ch.text) for ch in root],
+                                 [(etree.QName(ch).localname, ch.text) for ch in back]):
+            # one field per element name: two sites of one name cannot both keep their place
+            return "C02-duplicate-name-sites"
     return None
+
+
+def displaced_only_around(p, dups, before, after):
+    """the re-serialisation `after` differs from the document `before` only in the way the merged field of a name
+    with several sites explains: the children with other names are all there; every name keeps the order of its own
+    values; and the children that have one site and occur at most once per document (own reference `true_max`) are
+    still in their order.  (The merged field is a list inside the sequence of its neighbours, which are then written
+    in turns: repeatable neighbours move with it, nothing else does.)"""
+    def only(kids, pred):
+        return [k for k in kids if pred(k[0])]
+
+    if sorted(only(before, lambda n: n not in dups)) != sorted(only(after, lambda n: n not in dups)):
+        return False
+    for n in {k[0] for k in before}:
+        if n not in dups and only(before, lambda x: x == n) != only(after, lambda x: x == n):
+            return False
+
+    def single(n):
+        return n not in dups and true_max(p, n) == 1
+
+    return only(before, single) == only(after, single)
 
 
 def adapt_docs(op, a):
@@ -1650,7 +1918,7 @@ ORACLES = [
 def finding_duplicate_sites():
     a = {"particle": HAND[0], "words": [["a", "a"]]}
     msg = oracle_docs(a)
-    return (msg is not None and "rejected" in msg, msg or "the document now parses")
+    return (msg is not None and "rejected" in msg and covered_docs(a, msg) == "C02-duplicate-name-sites", msg or "the document now parses")
 
 
 def finding_same_choice_sequence():
@@ -1679,7 +1947,7 @@ NS_HEURISTIC_WITNESS = {
 
 def finding_ns_heuristic():
     msg = oracle_ns_docs(NS_HEURISTIC_WITNESS)
-    return (msg is not None and "rejected" in msg, msg or "the document now parses")
+    return (msg is not None and "rejected" in msg and covered_ns(NS_HEURISTIC_WITNESS, msg) is not None, msg or "the document now parses")
 
 
 def _nil_witness(vals):
